@@ -124,7 +124,7 @@ SRC_RAW = {
     "C11": ["SrcAct"],
     "C12": ["SrcAct"],
     "C15": ["SrcGen"],
-    "C17": ["SrcLoad"],
+    "C17": ["SrcLoad", "SrcLoadTop"],
     "C18": ["SrcLoad"],
     "C20": ["SrcBound"],
 }
